@@ -21,8 +21,10 @@ where
         }
         buf.reserve(to - from);
 
-        let reader = self.base.region().create_reader();
+        // Lock order is pages -> mmap: the writer holds the pages lock while it flushes the
+        // page index through the mapping.
         let pages = self.pages.read();
+        let reader = self.base.region().create_reader();
         ReadWriteCompressedVec::<I, T, S>::read_stored_pages_into(&reader, &pages, from, to, buf);
     }
 
